@@ -2,13 +2,13 @@
 import vf, reggen
 
 ID = 'C11'
-FLAVORS = ['default']
+FLAVORS = ['default', 'noinfo']
 RULE = ('REG histories: (a) breadth-first, every sequence of <= 2 (quick) / 3 (thorough) operations over the alphabet {write of each combination of three representative bits '
-        '(bit 6, bit 9, bit 5) to every event/condition/enable register and SRE, through SCPI_RegSet and through *ESE/*SRE/STAT:...:ENAB, push of 3 codes, pop, clear, *CLS, '
-        '*ESR?, STAT:OPER?, STAT:QUES?, STAT:PRES, SYST:ERR?}; (b) random walks of 40 operations over full 16-bit values, every fifth of them on a context initialised without an error callback (REGN). The invariant is evaluated after every operation. '
+        '(bit 6, bit 9, bit 5) to every event/condition/enable register and SRE, through SCPI_RegSet and through *ESE/*SRE/STAT:...:ENAB, set / clear of the user bits 4 and 8 of the status byte (SCPI_RegSetBits / SCPI_RegClearBits), push of 3 codes, pop, clear, *CLS, '
+        '*ESR?, STAT:OPER?, STAT:QUES?, STAT:PRES, SYST:ERR?}; (b) random walks of 40 operations over full 16-bit values, every fifth of them on a context initialised without an error callback (REGN), with SCPI_RegSetBits / SCPI_RegClearBits on every register (on the status byte: bits 0, 1, 4, 8..15); every third walk again on the build without error information (noinfo); the response text of the numeric status queries is compared with the command-layer model. The invariant is evaluated after every operation. '
         'Non-trivial: a history in which the status byte changes at least once; distinct = distinct lines.')
-MODELLED = 'SCPI_RegSet (table-driven propagation), RegSetBits/ClearBits, ErrorEmit/EmitEmpty, push/pop/clear, *CLS are modelled in RegModel; the command wrappers (*ESE, *SRE, *ESR?, STAT:...) are exercised on the implementation and mapped to the register write they stand for'
-ASSUMPTIONS = ['direct writes to the status byte itself are not among the property\'s operations (DESIGN.md section 9)']
+MODELLED = 'SCPI_RegSet (table-driven propagation), RegSetBits/ClearBits, ErrorEmit/EmitEmpty, push/pop/clear, *CLS are modelled in RegModel; the status command bodies of ieee488.c / minimal.c (register operations and reported number) in CmdModel; *IDN?, *OPC?, *RST, *TST?, *WAI, SYST:VERS? are exercised on the implementation only (no effect on status)'
+ASSUMPTIONS = ['direct writes to the status byte that change bits 2, 3, 5, 6 or 7 are not among the property\'s operations (DESIGN.md section 9 and 13.12); writes to its other bits are']
 
 
 def inv(regs, q):
@@ -61,4 +61,8 @@ def streams(tier, rng):
     # regression input of the fixed defect (observation 10): error first, enable later
     walks.append(reggen.line(2, ['P -113', reggen.cmd('*ESE 32', 'W:3:32'), reggen.cmd('*ESE 0', 'W:3:0')]))
     yield {'name': 'walk16bit', 'cases': walks, 'project': reggen.project, 'oracle': oracle,
+           'nontrivial': lambda c, o: c if len(set(s[1][0] for s in reggen.parse_out(o))) > 1 else None}
+    # the build without device-dependent error information: the queue code is configured differently (error.c), the registers must not notice
+    yield {'name': 'walk16bit-noinfo', 'flavor': 'noinfo', 'cases': walks[::3] + [reggen.line(2, ['P -113', 'C']), reggen.line(2, ['P -113', 'L']), reggen.line(2, ['P -113', reggen.cmd('*CLS', 'K:CLS')])],
+           'project': reggen.project, 'oracle': oracle,
            'nontrivial': lambda c, o: c if len(set(s[1][0] for s in reggen.parse_out(o))) > 1 else None}
